@@ -140,6 +140,21 @@ def analysis_pass(lines, item, order="forward", first=None, skip=None, detect=Fa
 
 
 def execute(item):
+    try:
+        return _execute(item)
+    except explore.Timeout:
+        raise
+    except Exception as e:  # noqa
+        if not explore.product_raised(sys.exc_info()[2]):
+            raise
+        # the product raised in one of the later passes (reverse order, repeat, subsets): C19's business
+        r = explore.Result()
+        r.notes.append(("blocked_by", f"C19 exception:{type(e).__name__}@{explore.repo_frame(sys.exc_info()[2])}"))
+        r.violations.append({"key": ("analysis_raises_in_another_order_or_on_repeat", f"{type(e).__name__}@{explore.repo_frame(sys.exc_info()[2])}"), "detail": {"message": str(e)[:200]}, "item": common.strip_item(item)})
+        return r
+
+
+def _execute(item):
     r = explore.Result()
     lines = universe.materialise(item)
     try:
